@@ -242,6 +242,19 @@ pub fn record(sink: &Sink, args: &Args) {
         let k = inp.k;
         with_kmer!(k, run_input(sink, &mut r, &inp, &w));
     }
+    // C19 on hand-built graphs (BaseGraph::add is public): multi-k-mer nodes with unrelated ends, some of them starting or
+    // ending with a k-mer that is its own reverse complement - shapes the compressors never produce
+    if w.index {
+        for _ in 0..(n / 3 + 2) {
+            let k = *r.pick(&[4usize, 5, 6, 8, 16]);
+            let st = r.chance(1, 3);
+            let nn = r.range(1, 12);
+            let nodes = big_nodes(&mut r, k, nn, st);
+            let inp = GInput { reads: vec![], k, stranded: st, thr: 1, mode: Mode::Sum, fam: "hand-built" };
+            let pools: Vec<usize> = vec![1, 4];
+            with_kmer!(k, ev_index(sink, &mut r, &inp, &nodes, &pools, 1, true));
+        }
+    }
     // C19 at scale: >= 10^5 single-k-mer nodes so that the parallel index builder really splits the work
     let big = args.num("big", 0) as usize;
     if big > 0 {
